@@ -14,6 +14,7 @@ import (
 	"path/filepath"
 	"sort"
 	"sync"
+	"sync/atomic"
 
 	"github.com/Eyevinn/mp4ff/mp4"
 )
@@ -120,30 +121,41 @@ func fragFileOf(tr cropTrack, frags []int, twoTruns bool, trackID int64) []byte 
 }
 
 // segmentsOf splits a fragmented file into (first sample index per moof) per track using the independent reader.
+var c11M2Checked int64 // segment starts whose sync flag was actually judged (guards against a vacuous M2 check)
+
 func firstSamplesSync(file []byte, track int) ([]bool, error) {
-	top, err := walkBoxes(file, 0)
+	got, err := isoReadFragments(file)
+	if err != nil {
+		return nil, err
+	}
+	trafs, err := rawTrafs(file) // per moof: the track fragments with their truns (own walker)
 	if err != nil {
 		return nil, err
 	}
 	var res []bool
-	for i, b := range top {
-		if b.Type != "moof" {
-			continue
+	idx := 0
+	for _, moof := range trafs {
+		n := 0
+		for _, tf := range moof {
+			if tf.track != track {
+				continue
+			}
+			for _, tr := range tf.truns {
+				n += len(tr.coded)
+			}
 		}
-		end := b.Start + b.Size
-		if i+1 < len(top) && top[i+1].Type == "mdat" {
-			end = top[i+1].Start + top[i+1].Size
+		if n > 0 {
+			if idx >= len(got[track]) {
+				return nil, fmt.Errorf("track %d: fragment starts at sample %d, only %d samples read", track, idx, len(got[track]))
+			}
+			res = append(res, (got[track][idx].Flags>>16)&1 == 0)
 		}
-		// read just this fragment: prefix zeros keep absolute offsets valid
-		one := append(make([]byte, b.Start), file[b.Start:end]...)
-		got, err := isoReadFragments(one)
-		if err != nil {
-			return nil, err
-		}
-		if ss := got[track]; len(ss) > 0 {
-			res = append(res, (ss[0].Flags>>16)&1 == 0)
-		}
+		idx += n
 	}
+	if len(res) == 0 {
+		return nil, fmt.Errorf("track %d: no fragment with samples found", track)
+	}
+	atomic.AddInt64(&c11M2Checked, int64(len(res)))
 	return res, nil
 }
 
@@ -206,6 +218,7 @@ func c11Replay(args []string) error {
 	}
 	wg.Wait()
 	rep.Extra["tool_ok"] = toolOK
+	rep.Extra["m2_segment_starts_checked"] = atomic.LoadInt64(&c11M2Checked)
 	rep.Extra["tool_failed"] = toolFail
 	rep.Done()
 	return nil
@@ -276,7 +289,9 @@ func c11Prog(rep *Report, c *segCase, dir, segBin, combBin string, idx int, note
 			}
 			if tr.Kind == "video" {
 				syncs, err := firstSamplesSync(file, track)
-				if err == nil {
+				if err != nil {
+					rep.Drift("segmenter/"+mode+"/first-samples-unreadable", err.Error(), cs)
+				} else {
 					for k, ok := range syncs {
 						if !ok {
 							rep.Violation("segmenter/"+mode+"/segment-starts-non-sync", fmt.Sprintf("segment %d does not start with a sync sample", k+1), cs)
@@ -366,7 +381,10 @@ func c11Frag(rep *Report, c *segCase, dir, resegBin string, note func(string, bo
 				}
 				rep.Violation(key, "resegmented output does not conserve the sample sequence: "+d, cs)
 			}
-			if syncs, err := firstSamplesSync(out, 1); err == nil {
+			syncs, err := firstSamplesSync(out, 1)
+			if err != nil {
+				rep.Drift("resegmenter/first-samples-unreadable", err.Error(), cs)
+			} else {
 				for k, ok := range syncs {
 					if !ok {
 						rep.Violation("resegmenter/segment-starts-non-sync", fmt.Sprintf("segment %d does not start with a sync sample", k+1), cs)
